@@ -294,6 +294,9 @@ impl Read for SFile {
             Answer::Interrupted => return Err(io::Error::new(io::ErrorKind::Interrupted, "scheduled interruption")),
         };
         c.stats.read_bytes += n as u64;
+        if std::env::var_os("VERIF_TRACE_IO").is_some() {
+            eprintln!("read point={} pos={} want={} avail={} got={}", c.point - 1, pos, buf.len(), avail, n);
+        }
         drop(c);
         buf[..n].copy_from_slice(&self.data[pos..pos + n]);
         self.pos = (pos + n) as u64;
